@@ -25,6 +25,7 @@ CLAIMED = {
  'C09': mux('Theorems: C09_stream, C09_reduce, C09_agree, C09_term, C09_error, C09_error_absent, C09_plain, for every accumulator/seed/terminator/item list; seed isolation across keys and lifetimes is decided by the correspondence check with mutating accumulators and by C02.', '§7 C09', 'Lean 4 proof (fold algebra by induction) + differential correspondence with mutating accumulators'),
  'C10': mux('Theorems: C10_first, C10_last, C10_take, C10_distinct (= eraseDupsBy), C10_lag1, C10_pad_start, C10_pad_end, C10_start_with, C10_sort (stable ordered permutation); lag(n), batch, distinct_until_changed and the plain variants are decided by the exhaustive small-sequence correspondence sweep and the list-semantics oracle.', '§7 C10', 'Lean 4 proof (list semantics by induction) + exhaustive short sequences x parameters + differential correspondence'),
  'C11': mux('Theorems: C11_causal (chunks of a prefix never depend on what follows, for every operator), C11_causal_local, C11_map_chunks, C11_scan_chunks, C11_reduce_chunks, C11_take_chunks, C11_roll_prompt, C11_wrap_chunk; the position of every real output is compared with the model chunk index and with the position required by the statement.', '§7 C11', 'Lean 4 proof (chunk equations) + per-source-position differential correspondence'),
+ 'C12': mux('Theorems over exact rationals (the same generic accumulators the driver executes at Float): C12_sum, C12_mean, C12_variance (Welford state = exact mean and sum of squared deviations; variance 0 for fewer than two items), C12_formal, C12_stream_eq_reduce, C12_sum_rounding (|fl-sum - sum| <= ((1+u)^n - 1) * sum|x| in the standard rounding model). The forward-error bound of the variance family is NOT proved: it is decided by bit-for-bit correspondence with the Welford/two-pass model and by differential testing against exact fractions (labelled testing).', '§7 C12', 'Lean 4 proof over Q (Mathlib field_simp/ring/nlinarith) + bit-exact differential correspondence at Float + exact-rational accuracy oracle'),
  'C13': mux('Theorems: C13_map_one_error, C13_filter_one_error, C13_scan_one_error, C13_ignore_map, C13_map_err_in_place, C13_router_dead_letters, C13_unhandled; handlers after filter/scan, the dead-letter channel and interleavings by correspondence + oracle (real run without the failing items).', '§7 C13', 'Lean 4 proof + differential correspondence; oracle: real run on the input without the failing items'),
  'C15': dict(
     text='Kernel-checked Lean 4 theorems (C15_line, C15_line_rechunk, C15_lp, C15_lp_incomplete, C15_prefix_roundtrip, C15_lp_frame_guard) over an executable model of line.unframe and length_prefix.unframe: for every item list, every chunking (empty chunks, cuts anywhere), every prefix size >= 1 and both byte orders the un-framer returns exactly the items; the model is tied to /repo on every run by a differential check that drives the real operators chunk by chunk and compares per-chunk outputs with the compiled model.',
